@@ -90,6 +90,41 @@ Proof.
   assert (E3 : (i - periods <? length x - periods) = true) by (apply Nat.ltb_lt; lia). rewrite E3. reflexivity.
 Qed.
 
+Lemma nth_repeat_none n i : nth i (repeat (@None F) n) None = None.
+Proof. revert i. induction n as [|n IH]; intros [|i]; cbn; try reflexivity. apply IH. Qed.
+
+(* pandas.Series.diff(-k), k >= 0: x[i] - x[i + k] while i + k is inside the series, NaN for the last k entries *)
+Theorem rolling_diff_backward_spec periods (x : list F) i d :
+  i < length x ->
+  nth i (rolling_diff_backward O periods x) None
+  = if i + periods <? length x then Some (fsub O (nth i x d) (nth (i + periods) x d)) else None.
+Proof.
+  intros Hi. unfold rolling_diff_backward. destruct periods as [|k].
+  - rewrite Nat.add_0_r. assert (E : (i <? length x) = true) by (apply Nat.ltb_lt; exact Hi). rewrite E.
+    rewrite (nth_indep _ None (Some d)) by (rewrite map_length, zip_with_length'; lia).
+    rewrite map_nth. f_equal. apply nth_zip_sub; exact Hi.
+  - set (p := S k). assert (Hp : 1 <= p) by (unfold p; lia). clearbody p.
+    rewrite nth_set_from by (rewrite set_from_length, repeat_length; exact Hi).
+    rewrite repeat_length.
+    destruct (Nat.ltb_spec (i + p) (length x)) as [Hin|Hout].
+    + assert (E1 : (length x - p <=? i) = false) by (apply Nat.leb_gt; lia). rewrite E1. cbn [andb].
+      rewrite nth_set_from by (rewrite repeat_length; exact Hi).
+      rewrite map_length, zip_with_length', skipn_length, firstn_length.
+      replace (Nat.min (Nat.min (length x - p) (length x)) (length x - p)) with (length x - p) by lia.
+      assert (E2 : (0 <=? i) = true) by reflexivity.
+      assert (E3 : (i <? 0 + (length x - p)) = true) by (apply Nat.ltb_lt; lia).
+      rewrite E2, E3. cbn [andb]. rewrite Nat.sub_0_r.
+      rewrite (nth_indep _ None (Some d)) by (rewrite map_length, zip_with_length', skipn_length, firstn_length; lia).
+      rewrite map_nth. f_equal.
+      rewrite nth_zip_sub by (rewrite ?skipn_length, ?firstn_length; lia).
+      rewrite nth_skipn', nth_firstn'.
+      assert (E4 : (i <? length x - p) = true) by (apply Nat.ltb_lt; lia). rewrite E4.
+      rewrite (Nat.add_comm p i). reflexivity.
+    + assert (E1 : (length x - p <=? i) = true) by (apply Nat.leb_le; lia).
+      assert (E2 : (i <? length x - p + length x) = true) by (apply Nat.ltb_lt; lia).
+      rewrite E1, E2. cbn [andb]. apply nth_repeat_none.
+Qed.
+
 (* pandas.Series.rolling(window).agg(func): NaN for the first window - 1 entries, then func of the
    window ending at i *)
 Theorem rolling_reduction_spec (func : list F -> F) window (x : list F) i :
